@@ -391,6 +391,13 @@ inductive ProjReadme where
   | text (t : String) (ctype : String)
 deriving Repr, DecidableEq, Inhabited
 
+/-- one dependency specification table of `[tool.poetry.dependencies]`, as far as validation looks at it:
+its string-valued items and its `extras` list -/
+structure DepSpec where
+  kvs : List (String × String) := []
+  extras : List String := []
+deriving Repr, DecidableEq, Inhabited
+
 /-- `[project]` (every key optional here; `name`/`version` requirements are validation's) -/
 structure ProjectT where
   name : Option String := none
@@ -404,6 +411,8 @@ structure ProjectT where
   classifiers : List String := []
   urls : List (String × String) := []
   readme : Option ProjReadme := none
+  /-- keys of `[project.optional-dependencies]` as written (validation only; the canonical names are an input of `configure`) -/
+  optionalDependencyNames : List String := []
 deriving Repr, DecidableEq, Inhabited
 
 /-- `[tool.poetry]` metadata keys -/
@@ -422,6 +431,10 @@ structure ToolT where
   documentation : Option String := none
   urls : Option (List (String × String)) := none
   readmes : List String := []           -- `readme` as a string or list
+  /-- keys of `[tool.poetry.extras]` as written (validation only) -/
+  extraNames : List String := []
+  /-- `[tool.poetry.dependencies]`: name ↦ its specification tables (validation only; a plain string constraint is an empty spec) -/
+  dependencies : List (String × List DepSpec) := []
 deriving Repr, DecidableEq, Inhabited
 
 /-- `f"{name} <{email}>"` / name / email of a `[project]` author entry -/
@@ -489,5 +502,111 @@ def configure (proj : ProjectT) (tool : ToolT) (spdx : String → Option License
     homepage := urlAcc.homepage, repositoryUrl := urlAcc.repository, documentationUrl := urlAcc.documentation,
     customUrls := urlAcc.custom, readmeContent := rcontent, readmeContentType := rct, readmes := readmes,
     extras := extras, requiresDist := requiresDist }
+
+/-! ## `Factory._validate_single_line_fields` (the validation that keeps single-line headers on one line) -/
+
+/-- `"\n" in value or "\r" in value` (characters from source) -/
+def hasLineBreak (s : String) : Bool := s.toList.any fun c => Gen.singleLineBreakChars.contains c
+
+/-- an element of a list-valued key: a string, or a table whose items are (sub-key, value) -/
+inductive VItem where
+  | str (s : String)
+  | dict (kvs : List (String × String))
+deriving Repr, DecidableEq, Inhabited
+
+/-- `table.get(key)` for the scalar keys the validator may ask for; outer `none` = key not modelled -/
+def ProjectT.scalar (p : ProjectT) (k : String) : Option (Option String) :=
+  if k = "name" then some p.name else if k = "description" then some p.description
+  else if k = "version" then some p.version else if k = "requires-python" then some p.requiresPython else none
+
+def ToolT.scalar (t : ToolT) (k : String) : Option (Option String) :=
+  if k = "name" then some t.name else if k = "description" then some t.description
+  else if k = "version" then some t.version else if k = "license" then some t.license
+  else if k = "homepage" then some t.homepage else if k = "repository" then some t.repository
+  else if k = "documentation" then some t.documentation
+  else if k = "requires-python" then some none      -- not a key of [tool.poetry]: `table.get` gives None
+  else none
+
+def Person.items (p : Person) : VItem :=
+  .dict ((match p.name with | some n => [("name", n)] | none => []) ++ (match p.email with | some e => [("email", e)] | none => []))
+
+def ProjectT.listItems (p : ProjectT) (k : String) : Option (List VItem) :=
+  if k = "keywords" then some (p.keywords.map .str) else if k = "classifiers" then some (p.classifiers.map .str)
+  else if k = "authors" then some (p.authors.map Person.items) else if k = "maintainers" then some (p.maintainers.map Person.items)
+  else none
+
+def ToolT.listItems (t : ToolT) (k : String) : Option (List VItem) :=
+  if k = "keywords" then some (t.keywords.map .str) else if k = "classifiers" then some (t.classifiers.map .str)
+  else if k = "authors" then some (t.authors.map .str) else if k = "maintainers" then some (t.maintainers.map .str)
+  else none
+
+/-- the `fields` list built by the validator: (field path, value) -/
+def itemFields (k : String) : Nat → List VItem → List (String × String)
+  | _, [] => []
+  | i, .str s :: rest => (k ++ "[" ++ toString i ++ "]", s) :: itemFields k (i + 1) rest
+  | i, .dict kvs :: rest =>
+    kvs.map (fun kv => (k ++ "[" ++ toString i ++ "]." ++ kv.1, kv.2)) ++ itemFields k (i + 1) rest
+
+def urlFields (urls : List (String × String)) : List (String × String) :=
+  urls.flatMap fun kv => [("urls", kv.1), ("urls." ++ kv.1, kv.2)]
+
+def validatorFields (scalar : String → Option (Option String)) (items : String → Option (List VItem))
+    (urls : List (String × String)) (readmeCt : Option String) : List (String × String) :=
+  (Gen.singleLineScalarKeys.flatMap fun k =>
+    match scalar k with
+    | some (some v) => [(k, v)]
+    | some none => []
+    | none => [(k, "<key not modelled>\n")]) ++
+  (Gen.singleLineListKeys.flatMap fun k =>
+    match items k with
+    | some xs => itemFields k 0 xs
+    | none => [(k, "<key not modelled>\n")]) ++
+  urlFields urls ++
+  (match readmeCt with | some ct => [("readme.content-type", ct)] | none => [])
+
+def ProjectT.validatorFields (p : ProjectT) : List (String × String) :=
+  Meta.validatorFields p.scalar p.listItems p.urls
+    (match p.readme with | some (.file _ ct) => some ct | some (.text _ ct) => some ct | _ => none)
+
+def ToolT.validatorFields (t : ToolT) : List (String × String) :=
+  Meta.validatorFields t.scalar t.listItems (t.urls.getD []) none
+
+/-- `Factory._validate_single_line_fields(location, table)` -/
+def singleLineErrors (location : String) (fields : List (String × String)) : List String :=
+  (fields.filter fun fv => hasLineBreak fv.2).map fun fv => location ++ "." ++ fv.1 ++ Gen.singleLineMessage
+
+/-- the errors for the metadata keys proper (name … readme content-type) -/
+def validateSingleLineCore (proj : ProjectT) (tool : ToolT) : List String :=
+  Gen.singleLineLocations.flatMap fun loc =>
+    if loc = "project" then singleLineErrors loc proj.validatorFields
+    else if loc = "tool.poetry" then singleLineErrors loc tool.validatorFields
+    else [loc ++ ": <location not modelled>"]
+
+/-- the names of extras: `for key in (…): fields += [(key, name) for name in table[key]]` (absent in sources where
+`Gen.singleLineNameKeys` is empty) -/
+def nameFields (names : String → List String) : List (String × String) :=
+  Gen.singleLineNameKeys.flatMap fun k => (names k).map fun n => (k, n)
+
+/-- `[tool.poetry.dependencies]`: the name and, per specification table, the listed string keys and the extras
+(absent in sources where `Gen.singleLineDependencyKeys` is empty) -/
+def dependencyFields (deps : List (String × List DepSpec)) : List (String × String) :=
+  if Gen.singleLineDependencyKeys.isEmpty then []
+  else deps.flatMap fun d =>
+    ("dependencies", d.1) :: d.2.flatMap fun spec =>
+      (Gen.singleLineDependencyKeys.filterMap fun k => (spec.kvs.lookup k).map fun v => ("dependencies." ++ d.1 ++ "." ++ k, v)) ++
+      spec.extras.map fun e => ("dependencies." ++ d.1 ++ ".extras", e)
+
+def ProjectT.validatorFieldsAll (p : ProjectT) : List (String × String) :=
+  p.validatorFields ++ nameFields (fun k => if k = "optional-dependencies" then p.optionalDependencyNames else [])
+
+def ToolT.validatorFieldsAll (t : ToolT) : List (String × String) :=
+  t.validatorFields ++ nameFields (fun k => if k = "extras" then t.extraNames else []) ++ dependencyFields t.dependencies
+
+/-- the errors `Factory.validate` adds for both tables (`_validate_single_line_fields`) -/
+def validateSingleLine (proj : ProjectT) (tool : ToolT) : List String :=
+  Gen.singleLineLocations.flatMap fun loc =>
+    if loc = "project" then singleLineErrors loc proj.validatorFieldsAll
+    else if loc = "tool.poetry" then singleLineErrors loc tool.validatorFieldsAll
+    else [loc ++ ": <location not modelled>"]
 
 end Poetry.Meta
